@@ -260,4 +260,11 @@ def refusedCommitAborts (ks : List String) : Bool :=
   let after := (ks.dropWhile (· != "set:CommitWait")).drop 1
   ks.contains "set:CommitWait" && (after.takeWhile (· != "return")).contains "call:Abort"
 
+/-! ### "Caller must revalidate inodes" (nfs/lorder.go) -/
+
+/-- a function that locks inodes by number re-validates what it locked at least once per such call (generation
+    comparisons with the handle, or `validateRename`); `validateRename` compares both directories' generations -/
+def relockCheck (r : String × Nat × Nat) : Bool :=
+  if r.1 = "nfs.validateRename" then 2 ≤ r.2.2 else r.2.1 ≤ r.2.2
+
 end GoNfsd.Model.Skeleton
